@@ -244,9 +244,10 @@ def code(r):
        | (r['dr'] is not None) << 5 | (r['dr'] or 0) << 6 | r['ef'] << 7 | r['df'] << 8 | r['ein'] << 9 | r['din'] << 10
        | (r['cnt'] is not None) << 11)
   a, b, c, regs = r['ints']
-  x = f | r['msg'] << 12 | r['out'] << 20 | (r['cnt'] or 0) << 28 | a << 32 | b << 36 | c << 40 | len(regs) << 44
+  nib = lambda v: v if 0 <= v < 15 else 15          # 15 = "out of range" (legal values are <= 5 at capacities 1..5)
+  x = f | r['msg'] << 12 | r['out'] << 20 | nib(r['cnt'] or 0) << 28 | nib(a) << 32 | nib(b) << 36 | nib(c) << 40 | len(regs) << 44
   for j, v in enumerate(regs): x |= v << (48 + 8 * j)
-  assert 0 <= r['msg'] < 256 and 0 <= r['out'] < 256 and 0 <= (r['cnt'] or 0) < 16 and max(a, b, c, len(regs)) < 16
+  assert 0 <= r['msg'] < 256 and 0 <= r['out'] < 256 and len(regs) < 16 and all(0 <= v < 256 for v in regs)
   return hex(x)
 
 def case_term(d, hist):
@@ -260,10 +261,16 @@ class MsgGen:
     s.ctr += 1
     return (s.rng.getrandbits(1) << 7) | (1 + s.ctr % 127)
 
-def exhaustive_wants(n, depth):
+def exhaustive_wants(n, depth, rots, rot_depth):
+  """prefix that puts the queue at a chosen (head position, occupancy), then EVERY (want_enq, want_deq) sequence of the given depth.
+  prefix = R cycles offering both (rotates head/tail), then L cycles offering enq only (fills)."""
   for L in range(n + 1):
     for seq in itertools.product(range(4), repeat=depth):
-      yield [(0, 1, 0)] * L + [(0, c >> 1, c & 1) for c in seq]
+      yield 'exh', [(0, 1, 0)] * L + [(0, c >> 1, c & 1) for c in seq]
+  for R in rots:
+    for L in range(n + 1):
+      for seq in itertools.product(range(4), repeat=rot_depth):
+        yield 'exh-rot', [(0, 1, 1)] * R + [(0, 1, 0)] * L + [(0, c >> 1, c & 1) for c in seq]
 
 def random_wants(rng, length, resets):
   w = []
@@ -298,16 +305,24 @@ def shrink(d, hist):
   offers = [(r['rst'], r['we'], r['msg'], r['wd']) for r in hist[:bad + 1]]
   cur = replay_fresh(d, offers)
   if py_spec_first_bad(d.kind, d.n, cur) is None: return hist[:bad + 1], bad
-  changed = True
-  while changed and len(offers) > 1:
-    changed = False
-    for i in range(len(offers)):
-      cand = offers[:i] + offers[i + 1:]
-      h2 = replay_fresh(d, cand)
-      b2 = py_spec_first_bad(d.kind, d.n, h2)
+  chunk = max(1, len(offers) // 2)
+  budget = 400                                   # re-simulations
+  while budget > 0:
+    i, progress = 0, False
+    while i < len(offers) and budget > 0:
+      cand = offers[:i] + offers[i + chunk:]
+      budget -= 1
+      try:
+        h2 = replay_fresh(d, cand) if cand else []
+        b2 = py_spec_first_bad(d.kind, d.n, h2)
+      except Exception:
+        b2 = None
       if b2 is not None:
-        offers, cur, changed = cand[:b2 + 1], h2[:b2 + 1], True
-        break
+        offers, cur, progress = cand[:b2 + 1], h2[:b2 + 1], True
+      else:
+        i += chunk
+    if chunk > 1: chunk //= 2
+    elif not progress: break
   return cur, py_spec_first_bad(d.kind, d.n, cur)
 
 # ---------------------------------------------------------------------------------------------- main
@@ -329,7 +344,9 @@ def run(ctx):
       d.fresh()
     except Exception as e:
       unsupported.append((d, e)); continue
-    plans = [('exh', w) for w in exhaustive_wants(d.n, depth)]
+    # rotations: quick = the wrap boundary only (head at n-1 / n), thorough = every head position
+    rots = ([d.n - 1, d.n] if quick else list(range(1, d.n + 2))) if d.n > 1 else []
+    plans = list(exhaustive_wants(d.n, depth, rots, 2 if quick else 3))
     if not quick and d.n <= 2:    # every offer sequence from the empty queue, depth 5 (n=1) / 6 (n=2)
       plans += [('exh-deep', [(0, c >> 1, c & 1) for c in seq]) for seq in itertools.product(range(4), repeat=d.n + 4)]
     plans += [('rnd', random_wants(rng, 200, d.has_reset)) for _ in range(nrand)]
@@ -361,11 +378,15 @@ def run(ctx):
   bad = ctx.coq_bad_indices('hist', IMPORTS, '', CASE_T, cases, 'case_ok c', shard=1500)
   ctx.extra['disagreeing_histories'] = len(bad)
   ctx.extra['coq_replay_s'] = round(time.time() - t_coq, 1)
-  seen = set()
-  for i in bad:
+  by_label = {}
+  for i in bad: by_label.setdefault(meta[i][0].label, []).append(i)
+  picked = []
+  for label, idxs in by_label.items():
+    spec_bad = [i for i in idxs if py_spec_first_bad(meta[i][0].kind, meta[i][0].n, meta[i][2]) is not None]
+    picked.append(min(spec_bad or idxs, key=lambda i: len(meta[i][2])) if spec_bad else idxs[0])
+  ctx.extra['queues_with_disagreement'] = sorted(by_label)
+  for i in picked:
     d, tag, hist = meta[i]
-    if d.label in seen: continue
-    seen.add(d.label)
     diag = ctx.coq_eval('diag', IMPORTS, '', [f'case_diagnosis {cases[i]}'])[0]
     small, at = shrink(d, hist)
     if at is None:
@@ -403,7 +424,7 @@ def main(ctx):
   except Exception as e:
     ctx.note('correspondence crashed: ' + traceback.format_exc()[-1500:])
     ctx.violation('C17:harness-crash', f'correspondence could not run: {e!r}', {'traceback': traceback.format_exc()}, found_input=False)
-  return ctx.finish(rule='case = one queue class x capacity 1..5 x one offer history starting from the empty queue: (a) exhaustive: prefill L=0..n then every '
+  return ctx.finish(rule='case = one queue class x capacity 1..5 x one offer history starting from the empty queue: (a) exhaustive: prefix (rotate head R times, fill L=0..n) then every '
                          '(want_enq,want_deq) sequence of depth 3 (quick) / 4 (thorough; plus every sequence of depth n+4 from empty for n<=2), (b) random 200-cycle histories with '
                          'bursty offer rates and 2% resets; distinct = distinct (class, capacity, offer sequence); non-trivial = at least one message accepted '
                          'and one delivered; every cycle compares rdy/val/fire/msg/count and the internal registers with the Coq spec and concrete model (coqc vm_compute)')
